@@ -11,6 +11,7 @@ Decided clauses (byte-exact relations between modes and OS-level stream behaviou
       -y wraps every item between `---` and a final `...`; -S returns the string itself
 """
 from . import kwalk, cg, prov, cfg
+from . import facts
 from .facts import callee_name
 
 EXPLANATION = (
